@@ -6,6 +6,7 @@ import (
 	"os"
 
 	"verif/harness/codec"
+	"verif/harness/commands"
 	"verif/harness/datebounds"
 	"verif/harness/datecompare"
 	"verif/harness/dates"
@@ -44,7 +45,9 @@ func main() {
 		err = nodeheap.Main(os.Args[2:])
 	case "publish":
 		err = publish.Main(os.Args[2:])
-case "query":
+	case "commands":
+		err = commands.Main(os.Args[2:])
+	case "query":
 		err = query.Main(os.Args[2:])
 	case "similarity":
 		err = similarity.Main(os.Args[2:])
